@@ -393,21 +393,44 @@ class EqMember(Model):
     """a group member for the equality fold: `content` names what it holds; != gives an element-wise difference token"""
     kinds = ("Array",)
 
-    def __init__(self, content, vector=False):
-        self.content, self.vector, self.shape, self.name = content, vector, (4,), ""
+    def __init__(self, content, vector=False, how="some", normclass=None):
+        # content: what the member holds; how: when two contents differ, do "some" or "all" elements differ; normclass: what its norm holds
+        self.content, self.vector, self.shape, self.name, self.how, self.normclass = content, vector, (4,), "", how, normclass
+
+    def _diff(self, o):
+        if getattr(o, "content", None) == self.content:
+            return "none"
+        return "all" if "all" in (self.how, getattr(o, "how", "some")) else "some"
 
     def __ne__(self, o):
-        return EqDiff(getattr(o, "content", None) != self.content)
+        return EqDiff(self._diff(o))
 
     def __eq__(self, o):
-        return EqDiff(getattr(o, "content", None) != self.content, negate=True)
+        return EqDiff(self._diff(o), negate=True)
+
+    @property
+    def norm(self):
+        # the norm of a Vector member (an Array member is its own norm): another quantity, equal for members that differ by a rotation
+        return EqMember(("norm", self.normclass if self.normclass is not None else self.content), False, self.how)
+
+    @property
+    def values(self):
+        return self
 
     __hash__ = None
 
 
 class EqDiff(Model):
+    """element-wise a != b (negate: a == b) of two members: which elements differ - "none", "some" or "all" of them"""
+
     def __init__(self, differs, negate=False):
-        self.differs, self.negate = differs, negate
+        self.differs, self.negate = (differs if isinstance(differs, str) else ("some" if differs else "none")), negate
+
+    def any_true(self):
+        return self.differs != "all" if self.negate else self.differs != "none"
+
+    def all_true(self):
+        return self.differs == "none" if self.negate else self.differs == "all"
 
     @property
     def norm(self):
@@ -426,8 +449,10 @@ def check_group_equality(run, tree):
     insertion order with element-wise equal members -> equal; any other key set or any differing element -> unequal"""
     hooks = core_hooks()
     hooks["ext"] = dict(hooks.get("ext", {}))
-    hooks["ext"]["numpy.any"] = lambda d, *a, **k: (d.differs if not d.negate else True) if isinstance(d, EqDiff) else (_ for _ in ()).throw(Unsupported("np.any(%r)" % (d,)))
-    hooks["ext"]["numpy.all"] = lambda d, *a, **k: ((not d.differs) if d.negate else d.differs) if isinstance(d, EqDiff) else (_ for _ in ()).throw(Unsupported("np.all(%r)" % (d,)))
+    hooks["ext"]["numpy.any"] = lambda d, *a, **k: d.any_true() if isinstance(d, EqDiff) else (_ for _ in ()).throw(Unsupported("np.any(%r)" % (d,)))
+    hooks["ext"]["numpy.all"] = lambda d, *a, **k: d.all_true() if isinstance(d, EqDiff) else (_ for _ in ()).throw(Unsupported("np.all(%r)" % (d,)))
+    for nm in ("array_equal", "array_equiv"):
+        hooks["ext"]["numpy." + nm] = lambda x, y, *a, **k: (getattr(x, "content", x) == getattr(y, "content", y))
     fi = tree.method(tree.cls(DG_Q), "__eq__")
     if fi is None:
         run.violated(DG_Q + ".__eq__", "src/osyris/core/datagroup.py", "__eq__ is not defined", "g1 == g2 is object identity")
@@ -437,7 +462,7 @@ def check_group_equality(run, tree):
     def grp(*members):
         g = new_group(tree, hooks)
         for k, content in members:
-            call_method(tree, hooks, g, "__setitem__", k, EqMember(content))
+            call_method(tree, hooks, g, "__setitem__", k, content if isinstance(content, EqMember) else EqMember(content))
         return g
     cases = [
         ("same keys, same order, equal members", [("a", 1), ("b", 2), ("v", 3)], [("a", 1), ("b", 2), ("v", 3)], True),
@@ -449,6 +474,14 @@ def check_group_equality(run, tree):
         ("this group has one more key", [("a", 1), ("b", 2)], [("a", 1)], False),
         ("disjoint keys, equal contents", [("a", 1)], [("b", 1)], False),
         ("both empty", [], [], True),
+        # the quantifier: unequal as soon as ONE element of ONE member differs; a Vector member is compared component-wise, not through its norm
+        ("one element of the last member differs", [("a", 1), ("b", EqMember(2, how="some"))], [("a", 1), ("b", EqMember(9, how="some"))], False),
+        ("one element of the first member differs", [("a", EqMember(1, how="some")), ("b", 2)], [("a", EqMember(9, how="some")), ("b", 2)], False),
+        ("every element of a member differs", [("a", EqMember(1, how="all")), ("b", 2)], [("a", EqMember(9, how="all")), ("b", 2)], False),
+        ("every element of every member differs", [("a", EqMember(1, how="all")), ("b", EqMember(2, how="all"))], [("a", EqMember(8, how="all")), ("b", EqMember(9, how="all"))], False),
+        ("a Vector member differs in one row", [("a", 1), ("v", EqMember(3, True))], [("a", 1), ("v", EqMember(4, True))], False),
+        ("a Vector member differs by a norm-preserving change (components swapped)", [("a", 1), ("v", EqMember(3, True, "all", "N"))], [("a", 1), ("v", EqMember(4, True, "all", "N"))], False),
+        ("a Vector member, all equal", [("a", 1), ("v", EqMember(3, True, "some", "N"))], [("a", 1), ("v", EqMember(3, True, "some", "N"))], True),
     ]
     for label, m1, m2, want in cases:
         construct = "%s.__eq__[%s]" % (DG_Q, label)
